@@ -5,6 +5,9 @@ CONSTANTS
   UrgentClose = FALSE
   JobsLast = FALSE
   NoPush = {FALSE, TRUE}
+  AttrPairs <- AP_Two
+  Faults <- FaultCalls
+  MaxFaults = 1
 VIEW View
-INVARIANTS TypeOK C04 C05 C06 C07_Count C08 C26_Safe C26_Exact 
+INVARIANTS TypeOK C04 C05 C06 C07_Count C08 C26_Safe C26_Exact
 CHECK_DEADLOCK FALSE
